@@ -85,6 +85,9 @@ class ValEnv(dict):
             return True, self.ctx.folder.fold(e, self.ctx.module(BRINE))
         except Unfoldable:
             pass
+        if isinstance(e, ast.Attribute) and isinstance(e.value, ast.Name) and e.value.id == self.objname and \
+                e.attr in self.val.get("attrs", {}):
+            return True, self.val["attrs"][e.attr]
         if isinstance(e, ast.Name) and e.id == self.objname:
             if "value" in self.val:
                 return True, self.val["value"]
@@ -498,8 +501,9 @@ class LoadExec:
                             except _struct.error:
                                 k = None
                         if k is None:
-                            raise AnalysisError("unsupported expression in loader: %s" % A.src(e))
-                        args.extend(("item", base, i, k) for i in range(k))
+                            args.append(("star", base))       # arity decided by the data: not one of the published fixed shapes
+                        else:
+                            args.extend(("item", base, i, k) for i in range(k))
                     else:
                         args.append(self.term(a, env))
                 return ("ctor", d) + tuple(args)
